@@ -2,7 +2,7 @@
 from __future__ import annotations
 
 import ast
-from typing import List, Optional
+from typing import Any, Dict, List, Optional, Tuple
 
 from .. import sym
 from ..cfg import Ev, Graph, reach
@@ -23,10 +23,53 @@ def _is_membership(t, K) -> bool:
     return False
 
 
+_PRED_CTX: List[Ctx] = []
+_PRED_TABLES: Dict[Tuple, Optional[Dict[str, Any]]] = {}
+
+
+def _predicate_table(fid: str, extra: Tuple) -> Optional[Dict[str, Any]]:
+    """What a predicate of the hiding dictionary answers about a key that is absent / hidden / visible there (interpreted on the
+    class's own objects, with the constant further arguments of the call): state -> value, or None when it is not decided."""
+    if not _PRED_CTX:
+        return None
+    ctx = _PRED_CTX[-1]
+    key = (id(ctx), fid, extra)
+    if key in _PRED_TABLES:
+        return _PRED_TABLES[key]
+    table: Optional[Dict[str, Any]] = None
+    try:
+        from ..absint import Interp, Oracle, enumerate_outcomes, make_hidden_dict
+        unit = ctx.p.func(fid)
+        if unit.cls is not None and all(isinstance(x, tuple) and x and x[0] == 'const' for x in extra):
+            table = {}
+            for state in ('absent', 'hidden', 'visible'):
+                def run(oracle, state=state):
+                    obj = make_hidden_dict(ctx.p, unit.cls, {'K': (state, 1)})
+                    return Interp(ctx.p, oracle).call_unit(unit, ['K'] + [x[1] for x in extra], {}, obj)
+                outs = enumerate_outcomes(run)
+                vals = {o[1] if o[0] == 'value' else ('raise', o[1]) for o in outs}
+                if len(vals) != 1 or not isinstance(next(iter(vals)), bool):
+                    table = None
+                    break
+                table[state] = next(iter(vals))
+    except Exception:
+        table = None
+    _PRED_TABLES[key] = table
+    return table
+
+
 def _implies_unprocessed(t, pol: bool, K) -> bool:
     """The outcome `pol` of the test with term `t` holds only if K is *not* marked as processed."""
     if not isinstance(t, tuple) or not t:
         return False
+    if t[0] == 'call' and isinstance(t[1], str) and not t[1].startswith('ext:') and len(t) > 2 and len(t[2]) >= 2 and t[2][1] == K:
+        recv = t[2][0]
+        if isinstance(recv, tuple) and recv and recv[0] == 'attr' and recv[2] == 'processed_nodes':
+            # a predicate of the hiding dictionary about K in the store of the marks: decided by its truth table - the outcome
+            # implies "not (visibly) marked" iff a visible mark cannot produce it
+            table = _predicate_table(t[1], tuple(t[2][2:]))
+            if table is not None:
+                return table['visible'] != pol
     if t[0] == 'not':
         return _implies_unprocessed(t[1], not pol, K)
     if t[0] in ('and', 'or'):
@@ -51,6 +94,8 @@ def _implies_unprocessed(t, pol: bool, K) -> bool:
 
 
 def _negative_processed_test(ctx: Ctx, prev: Optional[Ev], lab, K) -> bool:
+    if not _PRED_CTX or _PRED_CTX[-1] is not ctx:
+        _PRED_CTX.append(ctx)
     if prev is None or prev.kind != 'branch' or lab not in ('T', 'F') or prev.info.get('test') is None:
         return False
     return _implies_unprocessed(sym.term(ctx.p, prev.info['test'], prev.inst), lab == 'T', K)
